@@ -81,6 +81,8 @@ def check_config(cfg, w, rep):
     check_commit_always_inserts(cfg, w, rep, "a2")
     # (a3) ... and a commit that fails has indexed nothing (the insertion is the last step that can fail)
     check_no_failure_after_insert(cfg, w, rep, "a3")
+    # (a4) ... and a write or removal that reports success has appended its *whole* record
+    check_insert_writes_all_or_error(cfg, w, rep, "a4", "the operation would succeed while lookups still return the older entry (or still find a removed key)")
 
     # ---- (b0) the record stream the lookups fold over is every valid record of the bucket, in file order (the reader clauses
     #      of C06, re-checked: a reader that drops, reorders or stops early changes which record is "the most recent") ----
